@@ -37,7 +37,7 @@ def sem_check(ck, model, rng, c, nctx, stats):
             continue
         stats[oa[0]] = stats.get(oa[0], 0) + 1
         if oa != od:
-            fails.append({"kind": "semantic", "case": c.describe(), "ctx": sx(ctx), "avm": repr(a)[:3000], "denote": repr(d)[:3000]})
+            fails.append({"kind": "semantic", "case": c.describe(), "ctx": sx(ctx), "avm": repr(a)[:3000], "denote": repr(d)[:3000], "_case": c})
     return fails
 
 
@@ -358,6 +358,23 @@ def main(argv):
     ck.coverage["compile_outcomes"] = outcomes
     ck.coverage["run_verdicts"] = stats
 
+    # ---- known finding: the optimiser's orphan stores (class predicate computed by the Coq optimiser model, and only when the model
+    #      reproduces the real text exactly); everything else stays a violation
+    import c02 as C02
+    kept, orphan_hits = [], 0
+    for f in semfails:
+        c_ = f.get("_case")
+        if c_ is not None and same_outcome(c_) and "optimizer-orphan-store" in C02.classify(model, c_) and ck.match_known(lambda k: k.get("id") == "optimizer-orphan-store"):
+            orphan_hits += 1
+        else:
+            kept.append(f)
+    if orphan_hits:
+        ck.known("optimizer-orphan-store", "the scratch-slot optimiser deletes stores that have no cancelling load (value left on the stack): %d generated program run(s) with the optimiser on "
+                 "disagree with the source semantics, each in the class `opt-orphans non-empty and model text = real text`" % orphan_hits)
+    ck.coverage["failures_attributed_to_known_classes"] = {"optimizer-orphan-store": orphan_hits}
+    semfails = kept
+    for f in semfails:
+        f.pop("_case", None)
     # ---- verdict
     for f in semfails[:5]:
         ck.violation("real TEAL and the source semantics disagree: avm=%s denote=%s" % (f["avm"][:80], f["denote"][:80]), f)
